@@ -5,7 +5,7 @@
    (apply: keep / pay out / mint / burn;  fail: refund). *)
 EXTENDS Ledger, TLC
 
-CONSTANTS MaxAmt, MaxSends, Legacy, FifoGuard
+CONSTANTS MaxAmt, MaxSends, Legacy
 VARIABLES nextId
 vars == <<lvars, nextId>>
 
@@ -30,7 +30,7 @@ URecv == \E a \in Users, sid \in DOMAIN sends : Recv(a, sid) /\ UNCHANGED nextId
 ULegacy == Legacy /\ \E a \in Users, sid \in DOMAIN sends : LegacyMismatchRecv(a, sid) /\ UNCHANGED nextId
 
 \* without the FIFO guard (negative control) a contract may take any confirmed send addressed to it
-HeadOf(c) == IF FifoGuard THEN {Inbox(c)[Cursor(c) + 1]} ELSE {i \in DOMAIN sends : sends[i].to = c /\ sends[i].st = "confirmed"}
+HeadOf(c) == IF StrictFifo THEN {Inbox(c)[Cursor(c) + 1]} ELSE {i \in DOMAIN sends : sends[i].to = c /\ sends[i].st = "confirmed"}
 
 CRefund == \E c \in Contracts : Cursor(c) < Len(Inbox(c)) /\ \E sid \in HeadOf(c) :
              LET rf == RefundOf(sid, nextId) IN
@@ -56,10 +56,9 @@ MConfirm == \E id \in DOMAIN sends : sends[id].st = "pooled" /\ Confirm(<<id>>) 
 Next == USend \/ URecv \/ ULegacy \/ CRefund \/ CKeep \/ CPay \/ CMint \/ CBurn \/ MConfirm
 
 NonNegative == \A k \in DOMAIN bal : bal[k] >= 0
-OnlyAddressee == \A i \in DOMAIN sends : sends[i].st = "received" => Get(nrecv, i, 0) = 1
+OnlyAddressee == \A i \in DOMAIN nrecv : i \notin DOMAIN sends   \* nobody but the addressee's own receive (which retires the send) was accepted
 \* strict FIFO as an observable: the sends a contract received are exactly the first `cursor` entries of its inbox
-FifoObserved == \A c \in Contracts :
-   {i \in DOMAIN sends : sends[i].to = c /\ sends[i].st = "received"} = {Inbox(c)[j] : j \in 1..Cursor(c)}
+FifoObserved == \A c \in Contracts : \A j \in 1..Len(Inbox(c)) : (Inbox(c)[j] \notin DOMAIN sends) <=> (j <= Cursor(c))
 \* C09 liveness as a state predicate: the head of a non-empty inbox can always be processed (refund is always possible)
 InboxLive == \A c \in Contracts : Cursor(c) < Len(Inbox(c)) =>
                LET sid == Inbox(c)[Cursor(c) + 1] IN sends[sid].st = "confirmed" /\ sends[sid].to = c
